@@ -84,6 +84,29 @@ fn main() {
             }
         }
         Some("scratch") => scratch::run(),
+        Some("c18-dump") => {
+            // jv c18-dump bundled:<name> : every probe answer of one bundled zone (to diff two builds)
+            let label = pos.get(1).unwrap_or_else(|| usage());
+            let name = label.trim_start_matches("bundled:");
+            if let Some((_, b)) = jiff_tzdb::get(name) {
+                let rz = refmodel::reftz::parse_tzif(b).unwrap();
+                let tz = jiff::tz::TimeZone::tzif("Verif/Anon", b).unwrap();
+                let mut v: Vec<i128> = vec![refmodel::wide::TS_MIN_NS, refmodel::wide::TS_MAX_NS, 0, -1];
+                for t in zones::make_probes(&rz, 2045) {
+                    for d in [-1_000_000_000i128, -1, 0, 500_000_000] {
+                        v.push((t as i128 * 1_000_000_000 + d).clamp(refmodel::wide::TS_MIN_NS, refmodel::wide::TS_MAX_NS));
+                    }
+                }
+                for p in v {
+                    println!("{p}\t{}", props::c18::answer(&tz, p));
+                }
+            }
+        }
+        Some("c18-digest") => {
+            for l in props::c18::digest_lines() {
+                println!("{l}");
+            }
+        }
         Some("fuzz-replay") => {
             // jv fuzz-replay <target> <file> <property>: re-execute a saved libFuzzer input through
             // the same oracle in the plain harness (debug assertions on)
@@ -214,3 +237,8 @@ pub mod heap {
 
 #[global_allocator]
 static GLOBAL: heap::Counting = heap::Counting;
+
+/// Compile-time zones produced by jiff's static macros (see build.rs).
+pub mod static_zones {
+    include!(concat!(env!("OUT_DIR"), "/static_zones.rs"));
+}
